@@ -204,6 +204,15 @@ def build_lean(targets):
     return rc == 0, out
 
 
+def recheck_lean(modules):
+    """independent re-check of the compiled modules by `leanchecker` (replays every declaration of the
+    module through the kernel); returns (ok, output)"""
+    def go():
+        return sh(["lake", "env", "leanchecker"] + sorted(modules), cwd=LEAN, timeout=3600)
+    rc, out = flock_run(os.path.join(WORK, "lean.lock"), go)
+    return rc == 0, out
+
+
 def build_harness(profiles):
     def go():
         for p in profiles:
